@@ -19,8 +19,13 @@ for d in sorted(glob.glob(os.path.join(V, "seeded", "*"))):
                 inv = "%s (%s)" % (mm.group(1), mm.group(2)[:70])
                 break
         cmd = c["cmd"].split("./check ")[1]
-        return "`%s` -> %s, %.0f s, replay reproduces: %s, passes on unchanged tree: %s" % (cmd, inv, c.get("wall_s", 0), "yes" if c.get("replay_rc") == 1 else "NO", "yes" if c.get("replay_on_unchanged_tree_rc") == 0 else "NO")
+        rep = ""
+        if "replay_rc" in c:
+            rep = ", replay reproduces: %s, passes on unchanged tree: %s" % ("yes" if c.get("replay_rc") == 1 else "NO", "yes" if c.get("replay_on_unchanged_tree_rc") == 0 else "NO")
+        return "`%s` -> %s, %.0f s%s" % (cmd, inv, c.get("wall_s", 0), rep)
     caught = "; ".join(short(c) for c in hit) if hit else "**not caught** (" + ", ".join(c["cmd"].split("./check ")[1] for c in checks) + ")"
+    if m.get("note"):
+        caught += " - " + m["note"].replace("|", "/")[:300]
     rows.append("| %s | %s | %s | %s | %s |" % (sid, m.get("breaks_property"), (m.get("summary") or "").replace("|", "/").replace("\n", " ")[:330], (m.get("needs_to_manifest") or "").replace("|", "/").replace("\n", " ")[:260], caught))
 own = [
  ("revert D1 `b281101`", "C02, C11", "Ietf nonce word corrupted after the last block", "seek next to 2^38, read the last block, seek anywhere, read", "`C02 quick`, `C11 quick` -> I1/I6"),
